@@ -24,6 +24,7 @@ def tsvd_choice(rng, full):
 
 
 def check(ctx):
+    snap = ctx.snap()
     rng = ctx.rng
     nx = rng.randint(1, 4)
     nu = rng.choice([0, 0, 1, 2])
@@ -38,7 +39,7 @@ def check(ctx):
         t2, d2 = tsvd_choice(rng, nx)
         est = pykoop.Dmdc(mode_type=mode, tsvd_unshifted=t1, tsvd_shifted=t2)
         desc = f'Dmdc({mode}, {d1}, {d2})'
-    case = {'estimator': desc, 'nx': nx, 'nu': nu, 'X': X.tolist()}
+    case = {'estimator': desc, 'nx': nx, 'nu': nu, 'X': X.tolist(), 'replay': {'rng': snap}}
     try:
         est.fit(X, **kw)
     except Exception as ex:
@@ -98,5 +99,14 @@ def run(ctx):
 
 
 def replay(ctx, path):
-    print(open(path).read()[:3000])
-    return 1
+    """re-execute the oracle call that produced the replay (same PRNG state)"""
+    obj = json.load(open(path))
+    r = (obj.get('case') or {}).get('replay') if isinstance(obj.get('case'), dict) else None
+    print(json.dumps({k: v for k, v in obj.items() if k != 'case'}, indent=1)[:1500])
+    if not r:
+        print('this replay carries no re-executable oracle call (broken proof: see "broken")')
+        return 1
+    ctx.restore(r['rng'])
+    why, case, note = check(ctx)
+    print('oracle now:', why or 'property holds on this input', '' if note is None else f'({note})')
+    return 1 if why else 0
